@@ -504,6 +504,15 @@ def check_sat(batch, case, cfg, bins_list, rng, fixed_mx=None):
 
     multi, W, mname = cfg["multi"], cfg["alloc"], cfg["sat"]
     b = Built(case, multi)
+    detached = cfg.get("detached")
+    if detached:
+        # the profile is not attached to the instance the statistic is asked about (built without `instance=`, as the
+        # repository's own tests do, or attached to an instance with another budget limit): the functions that take an
+        # `instance` argument are specified on THAT instance
+        from pabutools.election import Instance
+
+        other = Instance() if detached == "none" else Instance(list(b.inst), budget_limit=b.inst.budget_limit * 3 + 1)
+        b.prof = core.build_profile(case, other, b.projs, multi=multi)
     sc = core.sat_class(mname)
     alloc = [b.projs[n] for n in W]
     floaty = mname in FLOAT_MEASURES.get(case.btype, [])
@@ -541,8 +550,9 @@ def check_sat(batch, case, cfg, bins_list, rng, fixed_mx=None):
 
     sc_scale = float(max(vals)) if floaty and vals else 0.0
     batch.add(Obs(case, cfg, "avg_satisfaction", call(vs.avg_satisfaction, b.inst, b.prof, alloc, sc), fl(t_mean(vals)), line0, field(0), scale=sc_scale, nontrivial=nt))
-    batch.add(Obs(case, cfg, "percent_positive_satisfaction", call(vs.percent_positive_satisfaction, b.prof, alloc, sc),
-                  X(F(sum(1 for v in vals if v > 0), n)), line0, lambda raw: m_rat(m_tokens(raw)[1]), nontrivial=nt))
+    if not detached:  # takes no instance argument: it is about the profile's own instance
+        batch.add(Obs(case, cfg, "percent_positive_satisfaction", call(vs.percent_positive_satisfaction, b.prof, alloc, sc),
+                      X(F(sum(1 for v in vals if v > 0), n)), line0, lambda raw: m_rat(m_tokens(raw)[1]), nontrivial=nt))
     g = t_gini(vals)
     batch.add(Obs(case, cfg, "gini_coefficient_of_satisfaction", call(vs.gini_coefficient_of_satisfaction, b.inst, b.prof, alloc, sc), X(g), line0,
                   lambda raw: m_rat(m_tokens(raw)[2]), nontrivial=nt))
@@ -688,6 +698,7 @@ def election_stream(ctx, n, compare=True):
     rng = ctx.rng
     bins = BinCycle(rng)
     batch = Batch(ctx, compare)
+    detach_rng = random.Random(12345 + 7919 * int(getattr(ctx, "seed", 0) or 0))  # own stream: the draws above keep their seeds
     for i in range(n):
         case = core.gen_election(rng, m_hi=6, n_hi=7)
         if i % 9 == 0:
@@ -712,6 +723,10 @@ def election_stream(ctx, n, compare=True):
                     ctx.count("measure", mname)
                     cfg = {"kind": "sat", "multi": multi, "alloc": list(W), "sat": mname}
                     check_sat(batch, case, cfg, bins.take(2), rng)
+                    if detach_rng.random() < 0.15:
+                        how = detach_rng.choice(["none", "other"])
+                        ctx.count("detached_profile", how)
+                        check_sat(batch, case, dict(cfg, detached=how), [], rng)
         if len(batch.lines) > 4000:
             batch.finish()
     batch.finish()
@@ -935,6 +950,8 @@ def replay(payload):
         check_profile(batch, case, {"kind": "prof", "multi": cfg["multi"]})
     elif kind == "sat":
         base = {"kind": "sat", "multi": cfg["multi"], "alloc": cfg["alloc"], "sat": cfg["sat"]}
+        if cfg.get("detached"):
+            base["detached"] = cfg["detached"]
         if "bins" in cfg:
             check_sat(batch, case, base, [int(cfg["bins"])], random.Random(0), fixed_mx=F(cfg["mx"]))
         else:
